@@ -434,6 +434,87 @@ def rule_r8b_extend_map(text, enabled, applied):
         applied.append(f'R8b(extend-map#{n})')
 
 
+def rule_r11_unshadow(text, unshadows, applied):
+    """alpha-renaming: a local `let [mut] X = X;` that shadows parameter X is renamed (the local and every later use),
+    so that contracts can mention the parameter (Verus relates recursive calls to the measure at function entry)"""
+    for name, new in unshadows:
+        st = _lex(text)
+        hit = None
+        for i, t in enumerate(st):
+            if t.kind == 'ident' and t.text == 'let':
+                j = i + 1
+                if st[j].text == 'mut':
+                    j += 1
+                if st[j].text == name and st[j + 1].text == '=' and st[j + 2].text == name and st[j + 3].text == ';':
+                    hit = j
+                    break
+        if hit is None:
+            raise Undecided(f'lost anchor: shadowing `let {name} = {name};` not found for R11')
+        edits = [(st[hit].start, st[hit].end)]
+        for t in st[hit + 4:]:
+            if t.kind == 'ident' and t.text == name:
+                edits.append((t.start, t.end))
+        for a, b_ in sorted(edits, reverse=True):
+            text = text[:a] + new + text[b_:]
+        applied.append(f'R11(rename shadowing local {name} -> {new})')
+    return text
+
+
+def rule_r10_lift_closure(text, lifts, applied):
+    """lambda lifting of a closure passed to Option::map_or: `X.map_or(D, |p| BODY)` becomes
+    `match X { Some(p) => NAME(ARGS), None => D }` and BODY becomes the body of a new function NAME whose parameters are
+    the closure parameter and the captured variables (variables captured by unique borrow are passed as `&mut` and
+    dereferenced in BODY).  D is a pure allocation here, so evaluating it only in the None arm changes nothing.
+    The lifted function (signature and contract from the sidecar) is appended behind the function."""
+    for l in sorted(lifts, key=lambda x: -x['n']):
+        st = _lex(text)
+        cl = find_closures(st)
+        if l['n'] > len(cl):
+            raise Undecided(f'lost anchor: closure #{l["n"]} not found for R10')
+        i, j = cl[l['n'] - 1]
+        if st[j + 1].text != '{':
+            raise Undecided('R10: closure body is not a block')
+        e = match_forward(st, j + 1)
+        param = text[st[i].end:st[j].start].strip()
+        # enclosing map_or call
+        if st[i - 1].text != ',':
+            raise Undecided('R10: closure is not the second argument of map_or')
+        d, k = 0, i - 1
+        while k >= 0:
+            t = st[k]
+            if t.kind == 'punct' and t.text in CLOSE:
+                d += 1
+            elif t.kind == 'punct' and t.text in OPEN:
+                if d == 0:
+                    break
+                d -= 1
+            k -= 1
+        if not (st[k].text == '(' and st[k - 1].text == 'map_or' and st[k - 2].text == '.'):
+            raise Undecided('R10: enclosing call is not .map_or(..)')
+        close = match_forward(st, k)
+        after = close + 1
+        if st[close - 1].text == ',':
+            pass
+        default = text[st[k + 1].start:st[i - 1].start].strip()
+        r0 = _receiver_start(st, k - 1, 'R10')
+        recv = text[st[r0].start:st[k - 2].start].rstrip()
+        # body with dereferenced captures
+        body_toks = st[j + 1:e + 1]
+        body = text[st[j + 1].start:st[e].end]
+        off = st[j + 1].start
+        edits = []
+        for t in body_toks:
+            if t.kind == 'ident' and t.text in l['deref']:
+                edits.append((t.start - off, t.end - off, f'(*{t.text})'))
+        for a, b_, rpl in sorted(edits, reverse=True):
+            body = body[:a] + rpl + body[b_:]
+        new = f'match {recv} {{ Some({param}) => {l["name"]}({l["args"]}),\n None => {default}, }}'
+        lifted = '\n'.join(l['sig']) + '\n' + body + '\n'
+        text = text[:st[r0].start] + new + text[st[close].end:] + '\n\n' + lifted
+        applied.append(f'R10(lift closure#{l["n"]} -> {l["name"]})')
+    return text
+
+
 def rule_r1_break_value(text, applied, breaktypes=None):
     """`break E` in a `loop` -> assignment + break (or `return E` when the loop is the function's tail)."""
     n = 0
@@ -786,7 +867,7 @@ def new_fn_spec(attrs):
         'id': attrs['id'], 'file': attrs['file'], 'name': attrs['name'], 'container': attrs.get('in'),
         'props': [p for p in attrs.get('props', '').split(',') if p],
         'ret': None, 'requires': [], 'ensures': [],  # ensures: list of {'label','props','lines'}
-        'loops': {}, 'folds': {}, 'closures': {}, 'ats': [], 'hoist': [], 'lettypes': {}, 'breaktypes': {}, 'desugar_for': [], 'adapters': {}, 'mapcollects': {}, 'tupleclones': [], 'extendmaps': False, 'container_extra': [], 'attrs': [],
+        'loops': {}, 'folds': {}, 'closures': {}, 'ats': [], 'hoist': [], 'lettypes': {}, 'breaktypes': {}, 'desugar_for': [], 'adapters': {}, 'mapcollects': {}, 'tupleclones': [], 'extendmaps': False, 'lifts': [], 'unshadows': [], 'container_extra': [], 'attrs': [],
         'recommends': [], 'decreases': [], 'stub_only': attrs.get('stub') == 'only', 'trusted_reason': attrs.get('trusted'),
     }
 
@@ -824,7 +905,7 @@ def parse_spec_file(path):
                 sect = None
             elif kw == 'import':
                 flush_raw()
-                chunks.append(('import', pos[0] if 'only' not in attrs else (pos[0], attrs['only'].split(','))))
+                chunks.append(('import', pos[0] if 'only' not in attrs else (pos[0], [x for x in attrs['only'].split(',') if x and x != '-'])))
             elif kw == 'include':
                 flush_raw()
                 for ch in parse_spec_file(os.path.join(os.path.dirname(os.path.dirname(path)) if os.path.basename(os.path.dirname(path)) == 'units' else os.path.dirname(path), pos[0])):
@@ -885,6 +966,13 @@ def parse_spec_file(path):
         elif kw == 'hoist':
             cur['hoist'] += pos
             sect = None
+        elif kw == 'unshadow':
+            cur['unshadows'].append((pos[0], attrs['as'] if 'as' in attrs else pos[2]))
+            sect = None
+        elif kw == 'lift-closure':
+            l = {'n': int(pos[0]), 'name': attrs['name'], 'args': attrs['args'], 'deref': [x for x in attrs.get('deref', '').split(',') if x], 'sig': []}
+            cur['lifts'].append(l)
+            sect = l['sig']
         elif kw == 'tupleclone':
             cur['tupleclones'].append((pos[0], int(attrs.get('arity', '2'))))
             sect = None
@@ -1018,6 +1106,8 @@ class Generator:
             applied = info['rules']
             if spec['hoist']:
                 text, hoisted = rule_r4_hoist(text, spec['hoist'], applied)
+            text = rule_r11_unshadow(text, spec['unshadows'], applied)
+            text = rule_r10_lift_closure(text, spec['lifts'], applied)
             text = rule_r2_fold(text, spec['folds'], applied)
             text = rule_r7_adapters(text, spec['adapters'], applied)
             text = rule_r8_map_collect(text, spec['mapcollects'], applied)
